@@ -314,6 +314,10 @@ class Exec(object):
         if isinstance(op, (ast.In, ast.NotIn)):
             r = self.member(p, a, b, e)
             return r if isinstance(op, ast.In) else Not(r)
+        if isinstance(op, (ast.Is, ast.IsNot, ast.Eq, ast.NotEq)) and not isinstance(a, Gen) and not isinstance(b, Gen) and NONE in (a.t, b.t) \
+                and all(t_ == NONE or t_.kind in ('rec', 'set', 'map', 'list') for t_ in (a.t, b.t)):
+            # None against None, or None against a value whose static type excludes None: decided by the types
+            return BoolVal((a.t == b.t) == isinstance(op, (ast.Is, ast.Eq)))
         if isinstance(op, (ast.Eq, ast.Is)): return self.equal(a, b)
         if isinstance(op, (ast.NotEq, ast.IsNot)): return Not(self.equal(a, b))
         if a.t == INT and b.t == INT:
@@ -689,6 +693,7 @@ class Exec(object):
                         'Sum': lambda: RX.Sum(args[0].z, args[1].z), 'Concat': lambda: RX.Concat(args[0].z, args[1].z)}[n]
                 return SV(REGEXP, ctor())
             if n in REC_CLASSES: return self.construct(p, n, e)
+            if n == 'IdentifierGenerator': return self.construct(p, 'IdGen', e)     # field-wise, justified by the verified contract of __init__
             if self.spec_mode and n in T.SPEC:
                 return T.SPEC[n](self, *[self.ev(p, a) for a in e.args])
             if self.spec_mode and n == 'old':
@@ -1047,6 +1052,7 @@ class Exec(object):
             if kw.arg == 'check_validity' and isinstance(kw.value, ast.Constant): check = bool(kw.value.value)
         if 'epsilon' in flds and 'epsilon' not in vals: vals['epsilon'] = SV(ATOM, T.EMPTY_STRING_ATOM)
         if cls == 'TM' and 'blank' not in vals: vals['blank'] = self.atom_const('_')
+        if cls == 'IdGen' and 'index' not in vals: vals['index'] = SV(INT, IntVal(0))       # default checked in the contract of IdentifierGenerator.__init__
         for f_ in flds:
             if f_ not in vals: raise Unsupported('constructor %s: missing %s' % (cls, f_))
             vals[f_] = self.coerce(vals[f_], RECORDS[cls][f_]) if vals[f_].t != RECORDS[cls][f_] else vals[f_]
@@ -1198,6 +1204,7 @@ class Exec(object):
     def ev_typed(self, p, value, target):
         """evaluate with the declared type of the target as a hint (empty literals, defaultdict)"""
         dt = self.declared(target.id) if isinstance(target, ast.Name) else None
+        if dt == NONE: dt = None          # a parameter typed None in this entry point may be rebound to a real object
         if dt is not None:
             ev = self.empty_of(dt, value)
             if ev is not None: return ev
